@@ -18,6 +18,7 @@
  *   rtobj n sd        a type created at run time (new_root(Type, $S, $I, $(New..), $(Assign..), $(Cmp..), $(Hash..),
  *                     $(Show..), $(C_Int..))): objects in an Array (sorted) and as Table keys, $() objects of that
  *                     type, method()/type_method()/implements_method() on it, every object finalised exactly once
+ *   roots n churn     n root objects held only in static memory while garbage is allocated (registry growth, collections)
  *   pool n keep       a type with its own Alloc instance (8-cell pool): new / del of n objects, `keep` of them held a while
  *   regs rounds base  six objects held only in locals (registers at -O1+) while non-inlined helpers allocate garbage
  *   gcl n churn       containers held only in local variables of this routine while `churn` garbage objects are
@@ -312,6 +313,32 @@ static void r_pool(long* v, int nv) {
   OUT("sum=%" PRId64 " allocs=%ld deallocs=%ld dtors=%ld dry=%ld inuse=%d", sum, pool_allocs, pool_deallocs, pool_dtors, pool_dry, inuse);
 }
 
+/* ---- roots -------------------------------------------------------------------------------------------- */
+/* root objects referenced only from static memory (the collector cannot see the pointers) while garbage is allocated:
+ * the registry grows and shrinks through several sizes and collections run; the roots must survive all of it */
+static var roots_hold[40];
+static __attribute__((noinline)) void roots_make(long n, long base) {
+  for (long i = 0; i < n; i++) { roots_hold[i] = new_root(Int, $I(base + i * 11)); }
+}
+static __attribute__((noinline)) int64_t roots_churn(long n) {
+  int64_t acc = 0;
+  for (long i = 0; i < n; i++) { acc += c_int(new(Int, $I(i))); if (i % 5 is 0) { new(String, $S("churn")); } }
+  return acc;
+}
+static __attribute__((noinline)) void roots_scrub(void) { volatile char pad[4096]; for (size_t i = 0; i < sizeof pad; i++) { pad[i] = 0; } }
+static void r_roots(long* v, int nv) {
+  long n = v[0] % 41, churn = v[1];
+  roots_make(n, 500);
+  roots_scrub();
+  int64_t acc = roots_churn(churn);
+  roots_scrub();
+  acc += roots_churn(churn / 2) & 1;
+  int64_t sum = 0;
+  for (long i = 0; i < n; i++) { sum += c_int(roots_hold[i]); }
+  for (long i = 0; i < n; i++) { del_root(roots_hold[i]); roots_hold[i] = NULL; }
+  OUT("acc=%" PRId64 " roots=%ld sum=%" PRId64, acc, n, sum);
+}
+
 /* ---- regs --------------------------------------------------------------------------------------------- */
 /* six collected objects kept alive in plain local variables (and nowhere else) while small non-inlined helpers allocate
  * garbage, so that collections run while the six are live: at -O1 and above such locals sit in callee-saved registers
@@ -479,7 +506,7 @@ static void r_thr(long* v, int nv) {
 static struct { const char* name; void (*f)(long*, int); int nargs; } ROUTINES[] = {
   {"tup", r_tup, 7}, {"each", r_each, 3}, {"views", r_views, 5}, {"exc", r_exc, 2}, {"fmt", r_fmt, 3},
   {"rtobj", r_rtobj, 2}, {"gcl", r_gcl, 2}, {"stk", r_stk, 2}, {"call", r_call, 2}, {"meth", r_meth, 1},
-  {"lock", r_lock, 1}, {"thr", r_thr, 2}, {"regs", r_regs, 2}, {"pool", r_pool, 2}, {NULL, NULL, 0}
+  {"lock", r_lock, 1}, {"thr", r_thr, 2}, {"regs", r_regs, 2}, {"pool", r_pool, 2}, {"roots", r_roots, 2}, {NULL, NULL, 0}
 };
 
 int main(int argc, char** argv) {
